@@ -201,11 +201,20 @@ def make_model_class():
             self.kpost = 0
 
         def getCurrentX(self):
+            # keep the object handed to the solver and a copy: it must not be modified by the run
+            self.supplied = (self.X, copy.deepcopy(self.X))
             return self.t, self.X
+
+        def supplied_mutated(self):
+            if getattr(self, 'supplied', None) is None:
+                return False
+            obj, snap = self.supplied
+            return sig(obj) != sig(snap) or any(not np.array_equal(np.asarray(a, dtype=float), np.asarray(b, dtype=float), equal_nan=True) for a, b in zip(obj, snap))
 
         def getdXdt(self, t, x):
             self.log.append(('getdXdt', self.name, self.kpost, sig(x)))
-            return [(-0.5 * np.asarray(e, dtype=float)) if np.ndim(e) else -0.5 * float(e) for e in x]
+            # bounded derivative: the state stays finite whatever step sizes the script forces
+            return [np.cos(np.asarray(e, dtype=float)) if np.ndim(e) else float(np.cos(float(e))) for e in x]
 
         def correctdXdt(self, dt, x, dXdt):
             self.log.append(('correct', self.name, self.kpost, sig(x), sig(dXdt), float(dt)))
@@ -214,7 +223,17 @@ def make_model_class():
             self.log.append(('getDt', self.name, self.kpost, sig(dXdt)))
             k = self.kdt
             self.kdt += 1
-            return self.props[k] if k < len(self.props) else self.dflt
+            if self.kdt > CAP + 3:
+                raise CapReached()      # also when postProcess is (wrongly) not called any more
+            p = self.props[k] if k < len(self.props) else self.dflt
+            pt = getattr(self, 'ptype', 'float')
+            if pt == 'np':
+                return np.float64(p)
+            if pt == '0d':
+                return np.array(p)
+            if pt == 'int' and math.isfinite(p) and float(p).is_integer() and abs(p) < 2 ** 52:
+                return int(p)
+            return p
 
         def postProcess(self, time, x):
             k = self.kpost
@@ -234,57 +253,193 @@ def make_model_class():
     return Scripted
 
 
-def run_impl(c):
-    """run one script on the implementation; returns the recorded history"""
-    from kawin.GenericModel import Coupler
-    from kawin.solver import SolverType
-    Scripted = make_model_class()
-    log = []
-    it = SolverType.EXPLICITEULER if c['iterator'] == 'Euler' else SolverType.RK4
-    ms = []
-    for j, m in enumerate(c['models']):
-        cls = with_codec(Scripted, m.get('codec', 'default'),
-                         lambda mdl, xf: log.append(('unfl', mdl.name, mdl.kpost, int(np.size(xf)))))
-        ms.append(cls(c['t0'], m['layout'], m['props'], c['dflt'], m['stops'],
-                      {int(k): v for k, v in m.get('relayouts', {}).items()}, log, j))
-    out = {'err': None, 'capped': False}
-    clog = []
-    if c['coupled']:
-        class LoggedCoupler(Coupler):
-            def flattenX(self, X):
-                r = super().flattenX(X)
-                clog.append(('F', list(self._sizeRef)))
-                return r
+SLOTS = ('preProcess', 'postProcess', 'printHeader', 'printStatus')
 
-            def unflattenX(self, X_flat, X_ref):
-                clog.append(('U', list(getattr(self, '_sizeRef', [])), len(X_flat)))
-                return super().unflattenX(X_flat, X_ref)
-        top = LoggedCoupler(ms)
-        top.time = np.array([c['t0']])
-    else:
-        top = ms[0]
-    try:
-        top.solve(c['simTime'], it, minDtFrac=c['fmin'], maxDtFrac=c['fmax'])
-    except CapReached:
-        out['capped'] = True
-    except Exception as e:
-        out['err'] = type(e).__name__ + ': ' + str(e)[:200]
-    out['tf'] = float(top.finalTime) if hasattr(top, 'finalTime') else None
-    # accepted times / dt as seen by model 0 (every model of a coupling sees the same ones)
-    out['times'] = [e[4] for e in log if e[0] == 'post' and e[1] == 0]
-    dts, last = [], None
-    for e in log:
-        if e[1] != 0:
-            continue
-        if e[0] == 'correct':
-            last = e[5]
-        elif e[0] == 'post':
-            dts.append(last)
-    out['dts'] = dts
-    out['log'] = log
-    out['clog'] = clog
-    if c['coupled']:
-        out['coupler_time'] = [float(x) for x in top.time]
+
+def segments(c):
+    s0 = {k: c[k] for k in ('simTime', 'fmin', 'fmax', 'iterator')}
+    s0['conv'] = c.get('conv', 'kw')
+    s0['simtype'] = c.get('simtype', 'float')
+    return [s0] + [dict(x) for x in c.get('more', [])]
+
+
+def expected_hooks(calls):
+    """documented semantics of DESolver.setFunctions: an omitted hook keeps the one registered before"""
+    out = [None] * 4
+    for i, call in enumerate(calls):
+        for k in range(4):
+            if call[k]:
+                out[k] = i
+    return out
+
+
+class Runner:
+    """one (possibly coupled) scripted model object; run_seg(i) performs its i-th solve() call"""
+    def __init__(self, c):
+        from kawin.GenericModel import Coupler
+        Scripted = make_model_class()
+        self.c = c
+        self.log = log = []
+        self.clog = clog = []
+        self.hlog = []
+        self.ms = []
+        for j, m in enumerate(c['models']):
+            cls = with_codec(Scripted, m.get('codec', 'default'),
+                             lambda mdl, xf: log.append(('unfl', mdl.name, mdl.kpost, int(np.size(xf)))))
+            mdl = cls(c['t0'], m['layout'], m['props'], c['dflt'], m['stops'],
+                      {int(k): v for k, v in m.get('relayouts', {}).items()}, log, j)
+            mdl.ptype = c.get('ptype', 'float')
+            self.ms.append(mdl)
+        if c['coupled']:
+            class LoggedCoupler(Coupler):
+                def flattenX(self, X):
+                    r = super().flattenX(X)
+                    clog.append(('F', list(self._sizeRef)))
+                    return r
+
+                def unflattenX(self, X_flat, X_ref):
+                    clog.append(('U', list(getattr(self, '_sizeRef', [])), len(X_flat)))
+                    return super().unflattenX(X_flat, X_ref)
+            self.top = LoggedCoupler(self.ms)
+            self.top.time = np.array([c['t0']])
+        else:
+            self.top = self.ms[0]
+        self.segs = segments(c)
+        self.results = []
+        self.dead = False
+
+    def now(self):
+        return float(self.ms[0].t)
+
+    def seg_case(self, i):
+        """what a FRESH object in the current state of this one would be asked to do in segment i"""
+        c, sg = self.c, self.segs[i]
+        models = []
+        for m, mdl in zip(c['models'], self.ms):
+            models.append({'layout': list(mdl.lay), 'props': list(m['props'][mdl.kdt:]), 'stops': list(m['stops'][mdl.kpost:]),
+                           'relayouts': {str(int(k) - mdl.kpost): v for k, v in m.get('relayouts', {}).items() if int(k) >= mdl.kpost},
+                           'codec': m.get('codec', 'default')})
+        ci = {'kind': c['kind'], 'iterator': sg['iterator'], 'coupled': c['coupled'], 't0': self.now(), 'simTime': float(sg['simTime']),
+              'fmin': float(sg['fmin']), 'fmax': float(sg['fmax']), 'dflt': c['dflt'], 'models': models, 'segment': i}
+        if i == 0 and c.get('direct'):
+            ci['direct'] = c['direct']
+        return ci
+
+    def call(self, sg, direct):
+        from kawin.solver import SolverType, DESolver
+        import contextlib, io
+        it = SolverType.EXPLICITEULER if sg['iterator'] == 'Euler' else SolverType.RK4
+        sim, st = sg['simTime'], sg.get('simtype', 'float')
+        simv = np.float64(sim) if st == 'np' else np.array(sim) if st == '0d' else \
+            int(sim) if (st == 'int' and float(sim).is_integer()) else sim
+        fmin, fmax, top = sg['fmin'], sg['fmax'], self.top
+        dflt_frac = (fmin == 1e-8 and fmax == 1.0)
+        conv = sg.get('conv', 'kw')
+        if direct:
+            # the model plugged into DESolver directly, hooks registered in several setFunctions calls
+            ctor = direct.get('ctor', 'kw')
+            if ctor == 'pos':
+                solver = DESolver(it, 0.1, fmin, fmax)
+            elif ctor == 'omit' and dflt_frac:
+                solver = DESolver(it)
+            else:
+                solver = DESolver(iterator=it, minDtFrac=fmin, maxDtFrac=fmax)
+            hl = self.hlog
+
+            def mk(slot, tag):
+                if slot == 0:
+                    return lambda: (hl.append((0, tag)), top.preProcess())[1]
+                if slot == 1:
+                    return lambda t, x: (hl.append((1, tag)), top.postProcess(t, x))[1]
+                if slot == 2:
+                    return lambda: hl.append((2, tag))
+                return lambda it_, t_, el_: hl.append((3, tag))
+            for k, callspec in enumerate(direct['calls']):
+                given = [mk(sl, k) if callspec[sl] else None for sl in range(4)]
+                last = max([sl for sl in range(4) if callspec[sl]] + [-1])
+                if direct.get('positional') and all(callspec[:last + 1]):
+                    solver.setFunctions(*given[:last + 1])
+                else:
+                    solver.setFunctions(**{SLOTS[sl]: given[sl] for sl in range(4) if callspec[sl]})
+            solver.setdXdtFunctions(top.getdXdt, top.correctdXdt, top.getDt, top.flattenX, top.unflattenX)
+            t, X0 = top.getCurrentX()
+            top.setTimeInfo(t, simv)
+            with contextlib.redirect_stdout(io.StringIO()):
+                solver.solve(top.initialTime, X0, top.finalTime, bool(direct.get('verbose')), 3)
+        elif conv == 'pos':
+            top.solve(simv, it, False, 10, fmin, fmax)
+        elif conv == 'omit' and dflt_frac:
+            if sg['iterator'] == 'RK4':
+                top.solve(simv)
+            else:
+                top.solve(simv, it)
+        elif conv == 'kwall':
+            top.solve(simTime=simv, solverType=it, verbose=False, vIt=10, minDtFrac=fmin, maxDtFrac=fmax)
+        else:
+            top.solve(simv, it, minDtFrac=fmin, maxDtFrac=fmax)
+
+    def run_seg(self, i):
+        if self.dead or i >= len(self.segs):
+            return
+        ci = self.seg_case(i)
+        l0, c0, h0 = len(self.log), len(self.clog), len(self.hlog)
+        out = {'err': None, 'capped': False}
+        try:
+            self.call(self.segs[i], ci.get('direct'))
+        except CapReached:
+            out['capped'] = True
+        except Exception as e:
+            out['err'] = type(e).__name__ + ': ' + str(e)[:200]
+        log = self.log[l0:]
+        out['tf'] = float(self.top.finalTime) if hasattr(self.top, 'finalTime') else None
+        # accepted times / dt as seen by model 0 (every model of a coupling sees the same ones)
+        out['times'] = [e[4] for e in log if e[0] == 'post' and e[1] == 0]
+        dts, last = [], None
+        for e in log:
+            if e[1] != 0:
+                continue
+            if e[0] == 'correct':
+                last = e[5]
+            elif e[0] == 'post':
+                dts.append(last)
+        out['dts'] = dts
+        out['log'] = log
+        out['clog'] = self.clog[c0:]
+        out['hooks'] = [sorted(set(t for (sl, t) in self.hlog[h0:] if sl == k)) for k in range(4)]
+        out['supplied_mutated'] = [j for j, m in enumerate(self.ms) if m.supplied_mutated()]
+        self.results.append((ci, out))
+        if out['capped'] or out['err']:
+            self.dead = True
+
+
+def run_history(c):
+    r = Runner(c)
+    for i in range(len(r.segs)):
+        r.run_seg(i)
+    return r.results
+
+
+def run_interleaved(cs):
+    """several objects alive at the same time, their solve() calls interleaved"""
+    rs = [Runner(c) for c in cs]
+    for i in range(max(len(r.segs) for r in rs)):
+        for r in rs:
+            r.run_seg(i)
+    return [r.results for r in rs]
+
+
+def run_impl(c):
+    """first segment only (single-call cases)"""
+    return run_history(c)[0][1]
+
+
+def oracle_history(c, results=None):
+    """the property text applied to every solve() call of the object; returns (segment, clause, cls, msg)"""
+    out = []
+    for (ci, im) in (results if results is not None else run_history(c)):
+        for (clause, cls, msg) in oracle(ci, im):
+            pre = 'solve call %d of the object: ' % (ci['segment'] + 1) if len(segments(c)) > 1 else ''
+            out.append((ci['segment'], clause, cls, pre + msg))
     return out
 
 
@@ -381,6 +536,30 @@ def gen_case(rng, idx):
                 m['relayouts'] = {str(k): [[int(rng.integers(1, 4)), w]] for k in range(0, 40, int(rng.integers(1, 4)))}
         models.append(m)
     c['models'] = models
+    # calling conventions of the public entry points: positional / keyword / omitted optional arguments,
+    # duration and proposals as Python float / numpy scalar / 0-d array / int
+    if kind != 'resolution':
+        c['conv'] = str(rng.choice(['kw', 'pos', 'kwall', 'omit']))
+        c['simtype'] = str(rng.choice(['float', 'np', '0d', 'int'], p=[0.4, 0.25, 0.25, 0.1]))
+        c['ptype'] = str(rng.choice(['float', 'np', '0d', 'int'], p=[0.4, 0.25, 0.25, 0.1]))
+        r = rng.random()
+        if r < 0.25:
+            # the same object is used for further solve() calls with other durations / fractions / iterators
+            c['more'] = []
+            for _ in range(int(rng.integers(1, 3))):
+                f1 = float(rng.choice([10 ** rng.uniform(-2.5, -0.3), 0.25, 0.5, 1e-8], p=[0.55, 0.15, 0.1, 0.2]))
+                f2 = float(rng.choice([1.0, min(1.0, f1 * 10 ** rng.uniform(0, 2)), f1], p=[0.35, 0.45, 0.2]))
+                c['more'].append({'simTime': float(sim * 10 ** rng.uniform(-1, 1)) if kind != 'dyadic' else float(rng.choice([0.5, 1.0, 2.0])),
+                                  'fmin': f1, 'fmax': f2, 'iterator': str(rng.choice(['Euler', 'RK4'])),
+                                  'conv': str(rng.choice(['kw', 'pos', 'kwall', 'omit'])),
+                                  'simtype': str(rng.choice(['float', 'np', '0d']))})
+        elif r < 0.37:
+            # the model plugged into DESolver directly; hooks registered in several setFunctions calls
+            ncalls = int(rng.integers(1, 5))
+            calls = [[bool(rng.random() < 0.4) for _ in range(4)] for _ in range(ncalls)]
+            calls[int(rng.integers(0, ncalls))][1] = True       # postProcess is registered by some call
+            c['direct'] = {'calls': calls, 'ctor': str(rng.choice(['kw', 'pos', 'omit'])),
+                           'positional': bool(rng.random() < 0.5), 'verbose': bool(rng.random() < 0.5)}
     return c
 
 
@@ -390,7 +569,12 @@ def hexcase(c):
         d[k] = fhex(c[k])
     for m in d['models']:
         m['props'] = [fhex(p) for p in m['props']]
+    for sg in d.get('more', []):
+        for k in ('simTime', 'fmin', 'fmax'):
+            sg[k] = fhex(sg[k])
     d['decimal'] = {k: c[k] for k in ('t0', 'simTime', 'fmin', 'fmax')}
+    if c.get('more'):
+        d['decimal']['more'] = [{k: sg[k] for k in ('simTime', 'fmin', 'fmax')} for sg in c['more']]
     return d
 
 
@@ -403,6 +587,9 @@ def unhexcase(d):
         m.setdefault('stops', [])
         m.setdefault('relayouts', {})
         m.setdefault('codec', 'default')
+    for sg in c.get('more', []):
+        for k in ('simTime', 'fmin', 'fmax'):
+            sg[k] = unhex(sg[k]) if isinstance(sg[k], str) else float(sg[k])
     c.pop('decimal', None)
     c.setdefault('coupled', len(c['models']) > 1)
     return c
@@ -514,6 +701,9 @@ def oracle_shapes(c, im):
     """every state handed to a callback has the nested structure and shapes the model supplied
     (initially by getCurrentX, afterwards by its latest postProcess)"""
     v = []
+    if im.get('supplied_mutated'):
+        return [('shape_preserved', 'supplied state modified',
+                 'the state object model %d returned from getCurrentX was modified in place by the run' % im['supplied_mutated'][0])]
     cur = {j: lay_sig(m['layout']) for j, m in enumerate(c['models'])}
     for e in im['log']:
         kind, j = e[0], e[1]
@@ -531,7 +721,24 @@ def oracle_shapes(c, im):
     return v
 
 
+def oracle_hooks(c, im):
+    """model plugged into DESolver directly: a hook that was registered (and not replaced later) is the
+    one the solver calls - in particular the model's postProcess is told about every accepted step"""
+    d = c.get('direct')
+    if not d or im['err']:
+        return []
+    exp = expected_hooks(d['calls'])
+    if exp[1] is not None and c['simTime'] > 0 and not any(e[0] == 'post' for e in im['log']):
+        return [('stops_at_first', 'registered postProcess not called',
+                 'postProcess was registered by setFunctions call %d of %r (given slots per call, order preProcess/postProcess/printHeader/printStatus) '
+                 'but was never called: no accepted step was reported to the model and its stop requests are ignored' % (exp[1], d['calls']))]
+    return []
+
+
 def oracle(c, im):
+    h = oracle_hooks(c, im)
+    if h:
+        return h + oracle_shapes(c, im)
     return oracle_clock(c, im) + oracle_shapes(c, im)
 
 
@@ -762,8 +969,9 @@ def nontrivial(c, im):
 
 
 def report_hits(ctx, hits):
+    """hits: (case, segment, clause, cls, msg)"""
     seen = set()
-    for (c, im, clause, cls, msg) in hits:
+    for (c, seg, clause, cls, msg) in hits:
         if (clause, cls) in seen:
             continue
         seen.add((clause, cls))
@@ -771,18 +979,18 @@ def report_hits(ctx, hits):
         site = 'GenericModel' if clause == 'shape_preserved' else SITE
         ctx.violation(clause, {'site': site, 'cls': cls},
                       {'kind': 'history', 'input': hexcase(small), 'observed': smsg,
-                       'oracle': 'property text evaluated on the recorded run with exact rationals (harness/c05.py: oracle)'},
+                       'oracle': 'property text evaluated on every recorded solve() call with exact rationals (harness/c05.py: oracle)'},
                       smsg)
 
 
 def shrink(c, clause, cls, msg):
-    """drop models / scripted proposals / re-layouts while the same oracle clause keeps failing"""
+    """drop solve calls / models / scripted proposals / re-layouts while the same oracle clause keeps failing"""
     def fails(d):
         try:
-            hs = [h for h in oracle(d, run_impl(d)) if h[0] == clause and h[1] == cls]
+            hs = [h for h in oracle_history(d) if h[1] == clause and h[2] == cls]
         except Exception:
             return None
-        return hs[0][2] if hs else None
+        return hs[0][3] if hs else None
     cur, curmsg = c, msg
     changed = True
     rounds = 0
@@ -790,6 +998,21 @@ def shrink(c, clause, cls, msg):
         changed = False
         rounds += 1
         cands = []
+        more = cur.get('more', [])
+        for k in range(len(more)):
+            d = copy.deepcopy(cur)
+            del d['more'][k]
+            cands.append(d)
+        if cur.get('direct') and len(cur['direct']['calls']) > 1:
+            for k in range(len(cur['direct']['calls'])):
+                d = copy.deepcopy(cur)
+                del d['direct']['calls'][k]
+                cands.append(d)
+        for key in ('ptype', 'simtype', 'conv'):
+            if cur.get(key) not in (None, 'float', 'kw'):
+                d = copy.deepcopy(cur)
+                d.pop(key)
+                cands.append(d)
         if len(cur['models']) > 1:
             for j in range(len(cur['models'])):
                 d = copy.deepcopy(cur)
@@ -830,48 +1053,91 @@ def shrink(c, clause, cls, msg):
     return cur, curmsg
 
 
+def hooks_term(d):
+    def opt(on, k):
+        return 'Some %s' % natlit(k) if on else 'None'
+    return 'check_hooks [%s]' % '; '.join('(%s, %s, %s, %s)' % tuple(opt(call[sl], k) for sl in range(4))
+                                            for k, call in enumerate(d['calls']))
+
+
+def compare_hooks(c, im, res):
+    """slots in force per the model vs the tags of the hooks the solver actually called"""
+    dis = []
+    model = [None if r is None else r[1] for r in res]
+    for sl in range(4):
+        obs = im['hooks'][sl]
+        want = [] if model[sl] is None else [model[sl]]
+        must = (sl in (0, 1) and len(im['times']) > 0) or (sl in (2, 3) and c['direct'].get('verbose'))
+        if any(t not in want for t in obs) or (must and want and not obs and not im['capped']):
+            dis.append('setFunctions history %r: slot %s is served by call(s) %r, model says %r' % (c['direct']['calls'], SLOTS[sl], obs, model[sl]))
+    return dis
+
+
 def explore(ctx, cases, label):
-    impls = [run_impl(c) for c in cases]
+    # objects with several solve() calls are run in pairs, their calls interleaved (two objects alive at
+    # the same time must not influence each other); every call is then judged on its own
+    multi = [k for k, c in enumerate(cases) if c.get('more')]
+    results = {}
+    for a, b in zip(multi[0::2], multi[1::2]):
+        ra, rb = run_interleaved([cases[a], cases[b]])
+        results[a], results[b] = ra, rb
+        ctx.hist('objects', 'interleaved pair')
+    for k, c in enumerate(cases):
+        if k not in results:
+            results[k] = run_history(c)
     terms, owner = [], []
-    for i, (c, im) in enumerate(zip(cases, impls)):
-        if im['err'] is None and all(d is not None for d in im['dts']):
-            terms.append(clock_term(c, im))
-            owner.append((i, 'clock'))
-            if c['coupled'] and not im['capped']:
-                terms.append(events_term(c, len(im['times'])))
-                owner.append((i, 'events'))
+    for k, c in enumerate(cases):
+        for (ci, im) in results[k]:
+            if im['err'] is None and all(d is not None for d in im['dts']):
+                terms.append(clock_term(ci, im))
+                owner.append((k, ci, im, 'clock'))
+                if ci['coupled'] and not im['capped']:
+                    terms.append(events_term(ci, len(im['times'])))
+                    owner.append((k, ci, im, 'events'))
+            if ci.get('direct'):
+                terms.append(hooks_term(ci['direct']))
+                owner.append((k, ci, im, 'hooks'))
     res = ctx.coq_eval('cases_' + label, HEADER, terms)
     dis_all, hits = [], []
     got = set()
-    for (i, what), r in zip(owner, res):
-        c, im = cases[i], impls[i]
+    for (k, ci, im, what), r in zip(owner, res):
+        c = cases[k]
         if what == 'clock':
-            got.add(i)
-            for d in compare_clock(c, im, r):
-                dis_all.append((c, d))
-        else:
-            for d in compare_events(c, im, r):
+            got.add((k, ci['segment']))
+            for d in compare_clock(ci, im, r):
+                dis_all.append((c, 'solve call %d: %s' % (ci['segment'] + 1, d)))
+        elif what == 'events':
+            for d in compare_events(ci, im, r):
                 dis_all.append((c, d))
             ctx.cov['traces_validated_against_impl'] += 1
-    for i, (c, im) in enumerate(zip(cases, impls)):
-        ctx.count(hexcase(c), nontrivial(c, im))
+        else:
+            for d in compare_hooks(ci, im, r):
+                dis_all.append((c, d))
+    for k, c in enumerate(cases):
+        segs = results[k]
+        im0 = segs[0][1]
+        ctx.count(hexcase(c), nontrivial(c, im0))
         ctx.hist('kind', c['kind'].split(':')[0])
-        ctx.hist('iterator', c['iterator'])
-        ctx.hist('steps', '0' if not im['times'] else '1' if len(im['times']) == 1 else '2-10' if len(im['times']) <= 10 else '11-100' if len(im['times']) <= 100 else '>100')
+        ctx.hist('solve_calls_per_object', len(segs))
+        ctx.hist('convention', '%s/%s/%s' % (c.get('conv', 'kw'), c.get('simtype', 'float'), c.get('ptype', 'float')))
+        if c.get('direct'):
+            ctx.hist('direct_DESolver', 'calls=%d' % len(c['direct']['calls']))
         for m in c['models']:
             for p in m['props']:
                 ctx.hist('proposal', 'nan' if math.isnan(p) else 'inf' if p == INF else '-inf' if p == -INF else 'zero' if p == 0 else 'negative' if p < 0 else 'positive')
-        if i not in got:
-            dis_all.append((c, 'implementation raised ' + str(im['err']) if im['err'] else 'implementation recorded no dt'))
-        for d in handed_disagreements(c, im):
-            dis_all.append((c, d))
-        for m in c['models']:
             ctx.hist('instructions', m.get('codec', 'default'))
-        for (clause, cls, msg) in oracle(c, im):
-            hits.append((c, im, clause, cls, msg))
-        if i < 4:
-            ctx.sample({'input': hexcase(c), 'impl_times': [fhex(t) for t in im['times'][:6]], 'steps': len(im['times']),
-                        'capped': im['capped']})
+        for (ci, im) in segs:
+            ctx.hist('iterator', ci['iterator'])
+            ctx.hist('steps', '0' if not im['times'] else '1' if len(im['times']) == 1 else '2-10' if len(im['times']) <= 10 else '11-100' if len(im['times']) <= 100 else '>100')
+            if (k, ci['segment']) not in got:
+                dis_all.append((c, 'implementation raised ' + str(im['err']) if im['err'] else 'implementation recorded no dt'))
+            for d in handed_disagreements(ci, im):
+                dis_all.append((c, d))
+        for (seg, clause, cls, msg) in oracle_history(c, segs):
+            hits.append((c, seg, clause, cls, msg))
+        if k < 4:
+            ctx.sample({'input': hexcase(c), 'impl_times': [fhex(t) for t in im0['times'][:6]], 'steps': len(im0['times']),
+                        'capped': im0['capped']})
     return dis_all, hits
 
 
@@ -944,9 +1210,8 @@ def run(ctx):
         more = [gen_case(ctx.rng, 100000 + i) for i in range(1500)]
         hits2 = []
         for c in more:
-            im = run_impl(c)
             ctx.cov['evaluations'] += 1
-            hits2 += [(c, im, *h) for h in oracle(c, im)]
+            hits2 += [(c, *h) for h in oracle_history(c)]
         report_hits(ctx, hits2)
         if not ctx.violations:
             c, d = alld[0]
@@ -980,9 +1245,10 @@ def replay(ctx, obj):
         print('replay: round trip %s' % ('FAILS on this input' if bad else 'holds on this input'))
         return 1 if bad else 0
     c = unhexcase(inp)
-    im = run_impl(c)
-    hits = oracle(c, im)
-    print('replay: times', [fhex(t) for t in im['times'][:12]], '... end time', fhex(c['t0'] + c['simTime']))
+    res = run_history(c)
+    hits = oracle_history(c, res)
+    for (ci, im) in res:
+        print('replay: solve call %d: times' % (ci['segment'] + 1), [fhex(t) for t in im['times'][:12]], '... end time', fhex(ci['t0'] + ci['simTime']))
     for h in hits:
         print('replay:', h)
     print('replay: %d oracle violations on this input' % len(hits))
